@@ -119,7 +119,7 @@ def _exec_case(args):
     qconds = [(c["B"], c["A"]) for c in case["qs"]]
     for (s, be, weakly) in configs:
         try:
-            bb = impl.build_base(case["sig"], conds, via=case["via"])
+            bb = impl.build_base(case["sig"], conds, via=case["via"], keys=key_layout(case))
             qs = impl.build_queries(qconds, via=case["via"])
             r = impl.ask(bb, qs, s, be, weakly)
         except BaseException as e:  # construction through the parser failed
@@ -128,6 +128,26 @@ def _exec_case(args):
             r = {"raised": True, "exc": "construct:" + type(e).__name__ + ": " + str(e)[:200], "obs": [], "rows": []}
         out.append({"sys": s, "backend": be, "weakly": weakly, "raised": r["raised"], "exc": r["exc"], "obs": r["obs"]})
     return out
+
+
+def key_layout(case):
+    """Keys under which the conditionals of an API-built base are stored: a layout fixed by the case's content (so a replay
+    reproduces it). Parser-built bases are numbered 1..n by the parser. Layouts: 1..n, 0..n-1, an offset, sparse layouts that
+    contain n+1 / leave gaps, descending -- the answer must not depend on it."""
+    if case.get("via") != "api":
+        return None
+    if case.get("keys"):
+        return case["keys"]
+    import zlib
+
+    n = len(case["base"])
+    h = zlib.crc32(repr([c["vec"] for c in case["base"]]).encode())
+    layouts = [
+        list(range(1, n + 1)), list(range(1, n + 1)), list(range(0, n)), list(range(2, n + 2)),
+        [k for k in range(1, n + 2) if k != max(1, n - 1)],          # a gap, contains n+1
+        list(range(n, 0, -1)), [3 * k + 2 for k in range(n)], list(range(n + 1, 2 * n + 1)),
+    ]
+    return layouts[h % len(layouts)]
 
 
 CRASHED = {"__interpreter_crashed__": True}
@@ -206,6 +226,7 @@ def case_texts(case):
         "base_vecs": vecs(case["base"]),
         "query_vecs": vecs(case["qs"]),
         "via": case["via"],
+        "keys": key_layout(case),
     }
 
 
